@@ -25,7 +25,7 @@ func init() {
 		id:    "C08",
 		level: "exploration",
 		rule: "PRNG trees (depth 1-4 x fan-out 1-5, <=150 actors) with idle/busy/crashing nodes, nodes that stop themselves in Started, direct stops of inner nodes, third parties poisoning descendants concurrently with the shutdown, shutdown from the root or an inner node by Poison or Stop; " +
-			"oracle per parent/child edge: every Stopped of the child ends before the parent's final Stopped begins, no descendant is registered while an ancestor handles Stopped, all of it before the stop context is done; Children() == the model's live children, Parent() == the spawner. Non-trivial = >=2 levels; distinct by (tree shape, behaviours, shutdown kind)",
+			"oracle per parent/child edge: every Stopped of the child ends before the parent's final Stopped begins, no descendant is registered while an ancestor handles Stopped, all of it before the stop context is done; Children() == the model's live children, Parent() == the spawner; directed histories: child held inside Stopped while the parent is shut down, self-stopping children, a child id respawned while a third party stops it, a supervisor that spawns a replacement for every worker that says goodbye from its Stopped handler and is then stopped itself. Non-trivial = >=2 levels; distinct by (tree shape, behaviours, shutdown kind)",
 		assumptions: []string{
 			"the order of Stopped deliveries is taken from one atomic sequence counter incremented at the begin and at the end of every Stopped handler",
 			"a held Stopped handler (directed scenario) is released after 2 ms: the delay only gives an overtaking parent the chance to show itself, the verdict is taken on the sequence numbers",
@@ -38,7 +38,7 @@ func init() {
 			return []modeSpec{
 				{name: "tree", n: n, perChild: n / 16, timeout: 20 * time.Minute},
 				{name: "tree-chaos", n: n, perChild: n / 16, timeout: 20 * time.Minute, env: []string{"VERIF_HOOK=chaos", "VERIF_HOOK_PROB=30", "VERIF_HOOK_MAXUS=50", "VERIF_HOOK_LOCKUS=400"}},
-				{name: "directed", n: 32 * (1 + 7*b2int(tier == "thorough")), perChild: 8, timeout: 10 * time.Minute, env: []string{"VERIF_HOOK=chaos", "VERIF_HOOK_PROB=50", "VERIF_HOOK_MAXUS=50", "VERIF_HOOK_LOCKUS=400"}},
+				{name: "directed", n: 48 * (1 + 7*b2int(tier == "thorough")), perChild: 8, timeout: 10 * time.Minute, env: []string{"VERIF_HOOK=chaos", "VERIF_HOOK_PROB=50", "VERIF_HOOK_MAXUS=50", "VERIF_HOOK_LOCKUS=400"}},
 			}
 		},
 		run: func(c *caseCtx) caseResult {
@@ -532,7 +532,9 @@ func c08Directed(c *caseCtx) (res caseResult) {
 		return mon.count(func(x any) bool { ev, ok := x.(actor.ActorStoppedEvent); return ok && ev.PID.ID == id }) > 0
 	}
 	lg := newTlog()
-	switch c.n % 3 {
+	switch c.n % 4 {
+	case 3:
+		c08Supervisor(c, e, &res)
 	case 2:
 		c08Respawn(c, e, &res)
 	case 0:
@@ -707,4 +709,135 @@ func c08Respawn(c *caseCtx, e *actor.Engine, res *caseResult) {
 	e.Poison(parent)
 	res.Desc = "directed: third party stops a child while the parent respawns the same id"
 	res.Sig = sigHash("directed", 2, c.n%7)
+}
+
+// c08Supervisor: a supervisor replaces every worker that says goodbye (workers tell their parent
+// from their Stopped handler). While the supervisor lives that is what it should do. Once it is
+// being stopped, goodbyes that still reach it must not leave it with children nobody stops: every
+// worker ever spawned has handled Stopped and is unregistered before the supervisor handles its own
+// Stopped.
+type supLog struct {
+	mu       sync.Mutex
+	spawned  []string
+	stopEnd  map[string]int64 // worker id -> sequence number at the end of its Stopped handler
+	supBegin int64
+	supKids  []string
+	next     int32
+}
+
+type supGoodbye struct{ From string }
+
+type supWorker struct {
+	lg   *supLog
+	slow time.Duration
+}
+
+func (w *supWorker) Receive(c *actor.Context) {
+	switch c.Message().(type) {
+	case actor.Stopped:
+		if w.slow > 0 {
+			time.Sleep(w.slow)
+		}
+		c.Send(c.Parent(), supGoodbye{From: c.PID().ID})
+		w.lg.mu.Lock()
+		w.lg.stopEnd[c.PID().ID] = atomic.AddInt64(&treeSeq, 1)
+		w.lg.mu.Unlock()
+	}
+}
+
+type supActor struct {
+	lg   *supLog
+	fan  int
+	slow time.Duration
+}
+
+func (s *supActor) spawn(c *actor.Context) {
+	id := fmt.Sprint(atomic.AddInt32(&s.lg.next, 1))
+	p := c.SpawnChild(func() actor.Receiver { return &supWorker{lg: s.lg, slow: s.slow} }, "w", actor.WithID(id))
+	s.lg.mu.Lock()
+	s.lg.spawned = append(s.lg.spawned, p.ID)
+	s.lg.mu.Unlock()
+}
+
+func (s *supActor) Receive(c *actor.Context) {
+	switch c.Message().(type) {
+	case actor.Started:
+		for i := 0; i < s.fan; i++ {
+			s.spawn(c)
+		}
+	case supGoodbye:
+		s.spawn(c)
+	case actor.Stopped:
+		b := atomic.AddInt64(&treeSeq, 1)
+		var kids []string
+		for _, k := range c.Children() {
+			kids = append(kids, k.ID)
+		}
+		s.lg.mu.Lock()
+		s.lg.supBegin = b
+		s.lg.supKids = kids
+		s.lg.mu.Unlock()
+	}
+}
+
+func c08Supervisor(c *caseCtx, e *actor.Engine, res *caseResult) {
+	r := c.rng
+	wd := watchdog(c.tier)
+	lg := &supLog{stopEnd: map[string]int64{}}
+	fan := pick(r, 1, 2, 8)
+	slow := pick(r, 0, 0, 200*time.Microsecond)
+	graceful := r.Intn(4) != 0
+	sup := e.Spawn(func() actor.Receiver { return &supActor{lg: lg, fan: fan, slow: slow} }, "sup", actor.WithID("s"))
+	res.Desc = fmt.Sprintf("directed: supervisor replaces workers that say goodbye, fan-out %d, then is stopped (graceful=%v)", fan, graceful)
+	// while it lives, a worker stopped by a third party is replaced
+	if r.Intn(2) == 0 {
+		lg.mu.Lock()
+		first := lg.spawned[0]
+		lg.mu.Unlock()
+		select {
+		case <-e.Poison(actor.NewPID("local", first)).Done():
+		case <-time.After(wd):
+			res.inconclusive("worker did not stop")
+			return
+		}
+		if !waitFor(wd, func() bool { lg.mu.Lock(); defer lg.mu.Unlock(); return len(lg.spawned) == fan+1 }) {
+			res.inconclusive("the supervisor did not replace the worker")
+			return
+		}
+	}
+	var ctx context.Context
+	if graceful {
+		ctx = e.Poison(sup)
+	} else {
+		ctx = e.Stop(sup)
+	}
+	select {
+	case <-ctx.Done():
+	case <-time.After(wd):
+		if rest, where := atRest(3 * time.Second); rest {
+			res.violate("the supervisor's stop context never became done and the process is at rest (%s)", where)
+		} else {
+			res.inconclusive("supervisor did not stop (%s)", where)
+		}
+		return
+	}
+	lg.mu.Lock()
+	defer lg.mu.Unlock()
+	if len(lg.supKids) > 0 {
+		res.violate("the supervisor handled Stopped while Children() still listed %v", lg.supKids)
+	}
+	for _, id := range lg.spawned {
+		end, ok := lg.stopEnd[id]
+		switch {
+		case !ok:
+			res.violate("the supervisor's stop context is done, but its child %s (spawned while it handled a worker's goodbye) never handled Stopped", id)
+		case end > lg.supBegin:
+			res.violate("child %s finished Stopped after the supervisor began its own", id)
+		}
+		if k, i := idKind(id); e.Registry.GetPID(k, i) != nil {
+			res.violate("the supervisor's stop context is done, but its child %s is still registered", id)
+		}
+	}
+	res.count("supervised_workers", int64(len(lg.spawned)))
+	res.Sig = sigHash("directed", 3, fan, graceful, slow > 0)
 }
